@@ -16,7 +16,7 @@ from engines.x86sym import orcentry
 from engines.x86sym.machine import byte_name
 from engines import oracle as oracle_mod
 
-ENGINE_VERSION = 'x86check-5'
+ENGINE_VERSION = 'x86check-9'
 CALLEE_SAVED = ('rbx', 'rbp', 'r12', 'r13', 'r14', 'r15')
 
 SSE_BITS = {'sse2': 1, 'sse3': 2, 'ssse3': 4, 'sse4.1': 8, 'sse4.2': 16, 'avx': 1 << 10, 'avx2': 1 << 11}
@@ -467,7 +467,7 @@ def check_program(prog, target, optable, sem, n_max=None, m_max=2, query_timeout
         fw = 8 * optable[fops_[-1]]['dest'][0] if fops_ and (optable[fops_[-1]]['flags'] & 4) else 0     # float lane width of the result (0: integer result)
         hard_fp = fp_data == 'quick' and any(o in ('mulf', 'divf', 'sqrtf', 'muld', 'divd', 'sqrtd', 'convfl', 'convdl') for o in ops_used)
         hard_data = any(o == 'divluw' for o in ops_used) or hard_fp      # 16-step shift/subtract divider: equivalence not decided in budget
-        es = orcentry.orc_entry_state(prog, solver, n_max, m_max=m_max)
+        es = orcentry.orc_entry_state(prog, solver, n_max, m_max=m_max, m_min=0)
         L = es.layout
         shift_params = set()
         param_asm = []
@@ -555,7 +555,14 @@ def check_program(prog, target, optable, sem, n_max=None, m_max=2, query_timeout
                 pins.append(es.m == mv)
             elif is2d:
                 mv = code['constant_m']
-            if const_n:
+            m_zero = False
+            if is2d and not (code.get('constant_m') or 0) and mv <= 0:
+                r0, _ = q(solver, *(f.pcnd + [es.m > 0]))
+                if r0 == z3.unsat:
+                    m_zero = True           # no rows: n is irrelevant on this path
+            if m_zero:
+                nv_eff, mv = 0, 0
+            elif const_n:
                 nv_eff = const_n
             else:
                 r, _ = q(solver, *(f.pcnd + [z3.Not(z3.And(*pins))]))
